@@ -34,6 +34,11 @@ CHECKS = {
     },
 }
 
+_extra = ROOT / "tools" / "manifest_entries.json"
+if _extra.exists():
+    for _k, _v in json.loads(_extra.read_text()).items():
+        CHECKS.setdefault(_k, _v)
+
 NOT_YET = "not claimed yet: model/theorems/correspondence for this property are still being built (see DESIGN.md section 6); no check is registered, so nothing is asserted about it"
 
 
